@@ -1310,6 +1310,10 @@ func (c *Conn) prepareStatement(ctx context.Context, stmt string, tracer Tracer)
 	}
 }
 
+// maxQueryValues is the largest number of bound values a QUERY/EXECUTE/BATCH statement can
+// carry: the count is encoded as a [short].
+const maxQueryValues = 65535
+
 func marshalQueryValue(typ TypeInfo, value interface{}, dst *queryValues) error {
 	if named, ok := value.(*namedValue); ok {
 		dst.name = named.name
@@ -1379,6 +1383,11 @@ func (c *Conn) executeQuery(ctx context.Context, qry *Query) *Iter {
 
 		if len(values) != info.request.actualColCount {
 			return &Iter{err: fmt.Errorf("gocql: expected %d values send got %d", info.request.actualColCount, len(values))}
+		}
+
+		if len(values) > maxQueryValues {
+			// the number of values is a [short] on the wire, more would be sent with a truncated count
+			return &Iter{err: fmt.Errorf("gocql: too many query values: got %d, the protocol allows at most %d", len(values), maxQueryValues)}
 		}
 
 		params.values = make([]queryValues, len(values))
@@ -1583,6 +1592,10 @@ func (c *Conn) executeBatch(ctx context.Context, batch *Batch) *Iter {
 
 			if len(values) != info.request.actualColCount {
 				return &Iter{err: fmt.Errorf("gocql: batch statement %d expected %d values send got %d", i, info.request.actualColCount, len(values))}
+			}
+
+			if len(values) > maxQueryValues {
+				return &Iter{err: fmt.Errorf("gocql: batch statement %d: too many query values: got %d, the protocol allows at most %d", i, len(values), maxQueryValues)}
 			}
 
 			b.preparedID = info.id
